@@ -14,7 +14,7 @@ import re
 from sa.model import AnalysisError, FuncInfo
 from sa.ctx import Ctx, short, stmt_key
 from sa.cfg import NORMAL, describe_path
-from sa.report import Report
+from sa.report import Report, section
 from sa.util import cfg_root, node_has_call, node_stores_attr, has_fact
 from sa import pat
 
@@ -239,9 +239,9 @@ class C10:
 
 def run(ctx: Ctx, rep: Report, tier: str):
     c = C10(ctx, rep)
-    c.t1()
-    c.t2()
-    c.t3()
+    section(rep, c.t1)
+    section(rep, c.t2)
+    section(rep, c.t3)
     rep.rule("C10.T4", "anything else is swallowed by the service loop (same query as C18.L1)", expect_min=1)
     from rules.C18 import C18
     x = C18(ctx, rep)
@@ -254,19 +254,19 @@ def run(ctx: Ctx, rep: Report, tier: str):
             i.rule = "C10.T4"
     del rep.rules["C18.L1"]
     rep.expect.pop("C18.L1", None)
-    c.t5()
-    c.t6()
-    c.t7()
+    section(rep, c.t5)
+    section(rep, c.t6)
+    section(rep, c.t7)
     from rules.common import alias, refresh_stamp_after_fetch
     from rules.C07 import C07
     rep.rule("C10.T8", "a refresh that fails is retried: SyncEntry.get_latest stores the refresh stamp only after the provider refresh returned", 1)
-    refresh_stamp_after_fetch(ctx, rep, "C10.T8")
+    section(rep, lambda: refresh_stamp_after_fetch(ctx, rep, "C10.T8"))
     alias(rep, ["C07.R6"], "C10.T9", "a download interrupted by a transient failure leaves nothing under the final temp name (bytes go to a '.tmp' sibling, published by "
           "rename after provider.download returned - C07.R6): the retry downloads again instead of uploading a truncated file", 2, lambda: C07(ctx, rep).r6())
     from rules.common import first_init_completes_before_flag
     rep.rule("C10.T10", "a transient fault in the first intake step after a restart is retried in full: _do_first_init clears its flag only after the cursor "
              "restore succeeded (C06.R9)", 1)
-    first_init_completes_before_flag(ctx, rep, "C10.T10")
+    section(rep, lambda: first_init_completes_before_flag(ctx, rep, "C10.T10"))
     from rules.common import walk_propagates_faults
     rep.rule("C10.T12", "a transient fault during a walk is not swallowed: Provider._walk / walk / walk_oid catch nothing but CloudFileNotFoundError without re-raising", 1)
-    walk_propagates_faults(ctx, rep, "C10.T12")
+    section(rep, lambda: walk_propagates_faults(ctx, rep, "C10.T12"))
